@@ -2142,8 +2142,51 @@ func runHandoff(c *Ctx) error {
 	for i := 0; i < c.Pick(120, 1200); i++ {
 		cases = append(cases, handoffOneDirection(c, i))
 	}
+	for i := 0; i < c.Pick(60, 600); i++ {
+		cases = append(cases, handoffWrap(c, i))
+	}
 	cases = append(cases, handoffBlobMutations(c)...)
 	return diffBatch(c, "stream", cases, nil)
+}
+
+// handoffWrap: hand-offs on sessions whose nonce word (base IV word + frame counter) passes 2^32 on the
+// way — an ordinary live state (the word is computed modulo 2^32 on both ends). "Exporting the crypto
+// state ... and importing it ... yields a stream that continues the session exactly": a state the
+// library itself exported must be importable, and traffic must go on both ways.
+func handoffWrap(c *Ctx, idx int) Case {
+	w := framingSetupWrap(c)
+	talk := func(n int) {
+		for i := 0; i < n && !w.dead; i++ {
+			from := "A"
+			if c.Rng.Intn(2) == 0 {
+				from = "B"
+			}
+			d := randBytes(c, c.Rng.Intn(40))
+			_ = w.send(from, 1, d)
+			_, _ = w.recvc(w.peer(from).name)
+		}
+	}
+	talk(4 + c.Rng.Intn(6)) // enough frames each way to pass the wrap (it lies 0-4 frames ahead)
+	for hop := 0; hop < 1+c.Rng.Intn(3) && !w.dead; hop++ {
+		who := "A"
+		if c.Rng.Intn(2) == 0 {
+			who = "B"
+		}
+		blob, err := tryExport(c, w, who)
+		if err != nil {
+			continue
+		}
+		if ierr := w.importBlob(who, blob); ierr != nil {
+			c.Violate(Violation{Property: "C15", Key: "C15:import-refuses-exported-state:nonce-word-past-2^32",
+				What:     "a state ExportCryptoState produced at a message boundary of a live session (base IV word + frame counter beyond 2^32, i.e. the nonce word has wrapped) was refused by NewStreamWithCryptoState: the session cannot be handed off",
+				Ops:      append([]string{}, w.ops...), Expected: "import succeeds and the session continues", Observed: "err " + errClass(ierr)})
+			break
+		}
+		c.Count("handoff-wrap:imported")
+		talk(2 + c.Rng.Intn(3))
+	}
+	c.Distinct(fmt.Sprintf("handoff-wrap|%d", idx), true)
+	return Case{Label: fmt.Sprintf("handoff-wrap#%d", idx), Ops: w.ops, Real: w.real}
 }
 
 // tryExport calls ExportCryptoState on `who` and applies the part of the C15 property oracle that needs
